@@ -39,8 +39,12 @@ def dynamic_reps(el):
                [('K', ('class', None, [('k', False, DIGIT), ('xs', False, rep)]))], 1)
     rep = ('rep', el, 'j', 'k')
     yield ('let2', ('let', 'j', DIGIT, ('let', 'k', DIGIT, rep)), [], 2)
-    # bound given as inline Python over a bound name
+    # bound given as inline Python over a bound name (also expressions of low precedence)
     yield ('letpy', ('let', 'k', DIGIT, ('rep', el, ('py', 'k'), ('py', 'k + 1'))), [], 1)
+    yield ('letpy', ('let', 'k', DIGIT, ('rep', el, ('py', 'k or 1'), ('py', 'k or 1'))), [], 1)
+    yield ('letpy', ('let', 'k', DIGIT, ('rep', el, None, ('py', 'k if k < 2 else 1'))), [], 1)
+    yield ('letpy', ('let', 'k', DIGIT, ('rep', el, ('py', 'k and 1'), ('py', '3 if k else 1'))), [], 1)
+    yield ('letpy', ('let', 'k', DIGIT, ('rep', el, ('py', 'k or 1'), None)), [], 1)
 
 
 def seps(el):
